@@ -90,6 +90,41 @@ fn predictor_cases(drv: &mut Drv, rep: &mut Report, rng: &mut Rng, n: usize) {
     }
 }
 
+/// `read_coefficients` (hook 99a8eca) against the model Vp8Coef.readCoefficients: random and biased
+/// partitions (long zero runs, end-of-block right away, large categories), the crate's default
+/// probabilities and random ones (incl. 0 and 255), every plane and starting context, several calls
+/// in a row on one partition (the decoder state carries over), partitions that end inside a block
+fn coefficient_cases(drv: &mut Drv, rep: &mut Report, rng: &mut Rng, n: usize) {
+    for i in 0..n {
+        let plane = rng.below(4) as usize;
+        let len = match i % 4 { 0 => rng.below(6) as usize, 1 => rng.range(6, 40) as usize, _ => rng.range(40, 200) as usize };
+        let style = rng.below(4);
+        let data: Vec<u8> = (0..len).map(|_| match style { 0 => rng.byte(), 1 => if rng.chance(1, 6) { rng.byte() } else { 0 }, 2 => if rng.chance(1, 6) { rng.byte() } else { 255 }, _ => *rng.pick(&[0u8, 1, 127, 128, 254, 255, 0x55, 0xAA]) }).collect();
+        let mut data = data;
+        if !data.is_empty() && data[0] == 255 { data[0] = 254; } // outside the boolean coder's range (C15)
+        let probs: Vec<u8> = if rng.chance(1, 2) {
+            // the crate's defaults for this plane
+            image_webp::verif_hooks::default_coeff_probs(plane)
+        } else {
+            (0..8 * 3 * 11).map(|_| if rng.chance(1, 10) { *rng.pick(&[0u8, 1, 254, 255]) } else { rng.byte() }).collect()
+        };
+        let calls: Vec<(usize, i16, i16)> = (0..rng.range(1, 7)).map(|_| (rng.below(3) as usize, rng.range(1, 1000) as i16, rng.range(1, 1000) as i16)).collect();
+        let line = format!("vp8coef {plane} {} {} {}", hex(&probs), if data.is_empty() { "-".to_string() } else { hex(&data) }, calls.iter().map(|c| format!("{},{},{}", c.0, c.1, c.2)).collect::<Vec<_>>().join(";"));
+        let got = match catch(|| hk::vp8_read_coefficients(&data, &probs, plane, &calls)) {
+            Ok(v) => v.iter().map(|r| match r { Ok((has, b)) => format!("ok {} {}", *has as u8, ints(&b[..])), Err(_) => "err".to_string() }).collect::<Vec<_>>().join("|"),
+            Err(m) => format!("PANIC {m}"),
+        };
+        let exp_raw = drv.ask(&line);
+        // on an error the block is not part of the result
+        let exp = exp_raw.split('|').map(|r| if r.starts_with("err") { "err".to_string() } else { r.to_string() }).collect::<Vec<_>>().join("|");
+        rep.case(&line, true);
+        rep.hit(if got.contains("err") { "coefficients_partition_exhausted" } else { "coefficients_ok" });
+        if got != exp {
+            rep.disagree(Disagreement { case: line, got, expected: exp, class: "violation", obligation: "C02: read_coefficients decodes the DCT tokens of a block as RFC 6386 section 13 defines (model Vp8Coef.readCoefficients over the boolean decoder of C15)".into(), detail: format!("plane {plane}, {} calls", calls.len()) });
+        }
+    }
+}
+
 /// RFC 6386 section 7.3 boolean decoder, used only to read the frame header of a synthetic
 /// stream (to lay the partitions out and to label the case); independent of the crate's.
 struct Bd<'a> { d: &'a [u8], pos: usize, value: u32, range: u32, bits: i32 }
@@ -541,6 +576,7 @@ pub fn run(o: &Opts) -> Report {
     let mut rng = Rng::new(o.seed ^ 0xC02);
     kernel_cases(&mut drv, &mut rep, &mut rng, if o.thorough() { 200000 } else { 20000 });
     predictor_cases(&mut drv, &mut rep, &mut rng, if o.thorough() { 60000 } else { 6500 });
+    coefficient_cases(&mut drv, &mut rep, &mut rng, if o.thorough() { 40000 } else { 4000 });
     fparam_cases(&mut drv, &mut rep, &mut rng, if o.thorough() { 100000 } else { 6000 });
     // (b) frames
     let n = if o.thorough() { 1200 } else { 160 };
